@@ -56,24 +56,29 @@ def gen_cases(ctx):
     cases = []
     for path in sorted(glob.glob(os.path.join(CORPUS_DIR, "C09", "*.json"))):
         cases.append(unjson(json.load(open(path))))
-    for _ in range(ctx.n(14, 250)):
+    for par in gen.HARD_SHAPES[:5]:
+        cases.append({"kind": "equality", "par": par, "seed": rng.randrange(10 ** 9),
+                      "algo": rng.choice(["bug", "fixedbug"]), "deep": rng.random() < 0.5})
+    for _ in range(ctx.n(30, 250)):
         kind = rng.choice([None, None, "spider", "chain", "star"])
         n = rng.choice([3, 4, 5, 6]) if kind else rng.choice([2, 3, 4, 5])
         cases.append({"kind": "equality", "par": gen.random_parent_array(rng, n, kind),
                       "seed": rng.randrange(10 ** 9), "algo": rng.choice(["bug", "fixedbug"]),
                       "deep": rng.random() < 0.5})
-    for _ in range(ctx.n(16, 250)):
+    for _ in range(ctx.n(45, 250)):
         kind = rng.choice([None, "spider", "chain"])
         n = rng.choice([3, 4, 5, 6]) if kind else rng.choice([2, 3, 4, 5])
         algo = rng.choice(["bug", "fixedbug"])
         svd = None
         if algo == "bug" and rng.random() < 0.5:
-            svd = dict(max_bond_dim=rng.choice([1, 2, 3, 4]), rel_tol=rng.choice([float("-inf"), 1e-6, 1e-2]),
-                       total_tol=rng.choice([float("-inf"), 1e-6, 1e-2]))
+            svd = dict(max_bond_dim=rng.choice([1, 2, 3, 4, float("inf")]),
+                       rel_tol=rng.choice([float("-inf"), 1e-6, 1e-2]),
+                       total_tol=rng.choice([float("-inf"), 1e-6, 1e-2, 0.3]),
+                       renorm=rng.random() < 0.3, sum_trunc=rng.random() < 0.4, sum_renorm=rng.random() < 0.5)
         cases.append({"kind": "contract", "par": gen.random_parent_array(rng, n, kind),
                       "seed": rng.randrange(10 ** 9), "algo": algo, "deep": rng.random() < 0.5,
                       "steps": 2, "svd": svd, "fullrank": rng.random() < 0.5})
-    for _ in range(ctx.n(6, 60)):
+    for _ in range(ctx.n(10, 60)):
         cases.append({"kind": "saturated", "seed": rng.randrange(10 ** 9), "algo": rng.choice(["bug", "fixedbug"]),
                       "deep": rng.random() < 0.5, "d": rng.choice([2, 3])})
     return cases
@@ -164,6 +169,37 @@ def _observed_order(algo, kind, order_ids, step_fn):
     return seen
 
 
+SVD_FIELDS = ("max_bond_dim", "rel_tol", "total_tol", "renorm", "sum_trunc", "sum_renorm")
+
+
+class TruncObserver:
+    """Records the parameter object handed to every truncate_singular_values call (wrapped from outside)."""
+
+    def __init__(self):
+        import sys
+        from pytreenet.util.tensor_splitting import truncate_singular_values  # noqa: F401
+        ts = sys.modules.get("pytreenet.util.tensor_splitting")
+        if ts is None or not hasattr(ts, "truncate_singular_values"):
+            from harness.common import HarnessError
+            raise HarnessError("cannot locate pytreenet.util.tensor_splitting.truncate_singular_values")
+        self.ts = ts
+        self.calls = []
+        self.orig = ts.truncate_singular_values
+
+    def __enter__(self):
+        obs = self
+
+        def wrapped(s, svd_params, *a, **k):
+            obs.calls.append({f: getattr(svd_params, f, None) for f in SVD_FIELDS})
+            return obs.orig(s, svd_params, *a, **k)
+        self.ts.truncate_singular_values = wrapped
+        return self
+
+    def __exit__(self, *exc):
+        self.ts.truncate_singular_values = self.orig
+        return False
+
+
 def _common_bug_module():
     import sys
     from pytreenet.time_evolution.bug import BUG  # noqa: F401  (makes sure the module is loaded)
@@ -238,14 +274,26 @@ def _run_one(ctx, case, rec):
     if case["kind"] == "contract":
         e_prev = algos.expval_dense(v_prev, Hm)
         for step in range(case["steps"]):
+            tobs = TruncObserver()
             try:
-                if step == 0:
-                    seen = _observed_order(algo, kind, order, lambda: _step(algo, kind))
-                else:
-                    _step(algo, kind)
+                with tobs:
+                    if step == 0:
+                        seen = _observed_order(algo, kind, order, lambda: _step(algo, kind))
+                    else:
+                        _step(algo, kind)
             except Exception as e:      # noqa: BLE001
                 fail(f"{kind}: step {step} did not complete: {type(e).__name__}: {str(e)[:200]}", e)
                 return None
+            if kind == "bug" and svd:
+                want = {f: svd.get(f, d) for f, d in zip(SVD_FIELDS, (100, 1e-15, 1e-15, False, False, True))}
+                if not tobs.calls:
+                    probs.append(f"step {step}: the rank-adaptive step performed no truncation")
+                for c in tobs.calls:
+                    if c != want:
+                        diff = {f: (c[f], want[f]) for f in SVD_FIELDS if c[f] != want[f]}
+                        probs.append(f"step {step}: truncation used settings differing from the configured ones "
+                                     f"(used, configured): {diff}")
+                        break
             st = algo.state
             v = dense.ttns_vector(st, order)
             n0 = np.linalg.norm(v_prev)
